@@ -87,8 +87,8 @@ def search(ctx, broken):
     """Directed search: small over-determined systems with one perturbed number and shuffled order."""
     rng = random.Random(ctx.seed + 77)
     found, tried = [], 0
-    for rnd in range(ctx.pick(3, 12)):
-        cases = [{"sys": P.gen_system(rng, nobj=rng.randint(2, 4), valid=False, redundancy=0.9), "tag": "search"} for _ in range(60)]
+    for rnd in range(ctx.pick(2, 12)):
+        cases = [{"sys": P.gen_system(rng, nobj=rng.randint(2, 4), valid=False, redundancy=0.9), "tag": "search"} for _ in range(40)]
         outs = core.run_impl_sharded(IMPL, cases, shard=6, timeout=3000)
         tried += len(cases)
         for c, o in zip(cases, outs):
